@@ -1,5 +1,5 @@
-import Abverif.Model.Crypto.Sha1
-import Abverif.Model.Crypto.Base64
+import Abverif.Model.Crypto7.Sha1
+import Abverif.Model.Crypto7.Base64
 /-
 C07 — published test vectors for the SHA-1 and Base64 reference oracles, checked by kernel
 evaluation (`decide +kernel`): RFC 3174 §7.3, RFC 4648 §10, RFC 6455 §1.3.
